@@ -4,8 +4,8 @@
    input is a list of complete lines ([llen l] bytes each, '\n' included) plus [tail] bytes
    without '\n'; the reader follows ANY schedule [sch] of read sizes. *)
 From Coq Require Import ZArith List Bool.
-From RM Require Import Base.Word C08.Model C11.Model C09.Model C09.Grammar C09.Driver C09.Proofs C09.ProofsBytes C09.ProofsFinish C09.ProofsFinal C09.ProofsTrace C09.Circular C09.ProofsCircular C09.ProofsLines.
-From RM Require C09.Pins C09.PinsMem.
+From RM Require Import Base.Word C08.Model C11.Model C09.Model C09.Grammar C09.Driver C09.Proofs C09.ProofsBytes C09.ProofsFinish C09.ProofsFinal C09.ProofsTrace C09.Circular C09.ProofsCircular C09.ProofsLines C09.ProofsTable.
+From RM Require C09.Pins C09.PinsMem C08.Proofs.
 Import ListNotations.
 Open Scope Z_scope.
 
@@ -435,3 +435,58 @@ Print Assumptions c09_ok_callback_is_whole_input.
 Theorem c09_trim_is_source : forall d, PinsMem.trim_src d = trim_nl d.
 Proof. exact PinsMem.pin_trim. Qed.
 Print Assumptions c09_trim_is_source.
+
+(* ================================================================== round 5, second pass *)
+
+(* finish_item / finish composed with C08 (was: "finish never panics" only).  For EVERY byte string and every
+   schedule of reads: the loop returns, finish returns, every (start, end) pair handed to `Range::new` on the
+   way - line records `address .. address + size - 1`, memory_range() of FUNC / STACK CFI INIT / STACK WIN
+   records, the STACK WIN record shortened by insert_win_stack_info ([finish_new_ranges]) - satisfies
+   0 <= start <= end < 2^64 (Range::new asserts "Ranges must be ordered": the class of seeded C09-8), and the
+   five range maps of the table (functions, each function's line table, CFI, STACK WIN frame data / fpo) are
+   strictly sorted, pairwise disjoint, made of ordered ranges ([table_wf]; C08's builder theorems applied to
+   what the recognisers produce). *)
+Theorem c09_table_ranges_ordered :
+  forall (bytes : list Z) (sch : list Z),
+    exists r s t, drive_c (map to_rle (fst (split_bytes bytes [])))
+                          (Z.of_nat (length (snd (split_bytes bytes [])))) sch = Ret (r, s) /\
+                  table_of r = Ret t /\ table_opt_wf t /\ Forall C08.Proofs.wf_range (result_new_ranges r).
+Proof. exact parse_table_wf_bytes. Qed.
+Print Assumptions c09_table_ranges_ordered.
+
+(* the same over the parser state, for all record sequences: any list of recognised / dropped lines replayed
+   from the initial state (not only those a run of the loop produces) *)
+Theorem c09_finish_ranges_ordered :
+  (forall (ds : list (bool * rle)) p,
+      replay rle pst recog_pst bump_pst lineno_pst init_pst ds = inl p ->
+      Forall C08.Proofs.wf_range (finish_new_ranges p) /\ exists t, finish p = Ret t /\ table_wf t) /\
+  (forall V (m : list (range * V)), map_wf m ->
+      forall i j a b, (i < j)%nat -> nth_error m i = Some a -> nth_error m j = Some b ->
+      fst (fst a) <= snd (fst a) /\ snd (fst a) < fst (fst b) /\ fst (fst b) <= snd (fst b)).
+Proof. split; [exact replay_table_wf|exact @map_wf_disjoint]. Qed.
+Print Assumptions c09_finish_ranges_ordered.
+
+(* non-vacuity: two overlapping STACK WIN records (the fix-up shortens the first: a third Range::new), a FUNC at
+   the top of the address space whose line record ends exactly at 2^64 - 1 and one that would end beyond it
+   (checked_add = None: no Range::new), a zero-size line: the Range::new arguments and the resulting maps *)
+Example c09_nonvacuous_ranges :
+  let r := drive_c [ex_module;
+                    map (fun b => (b, 1)) [83;84;65;67;75;32;87;73;78;32;52;32;49;48;32;49;48;32;48;32;48;32;48;32;48;32;48;32;48;32;49;32;120];  (* STACK WIN 4 10 10 0 0 0 0 0 0 1 x *)
+                    map (fun b => (b, 1)) [83;84;65;67;75;32;87;73;78;32;52;32;49;52;32;99;32;48;32;48;32;48;32;48;32;48;32;48;32;49;32;121];     (* STACK WIN 4 14 c 0 0 0 0 0 0 1 y *)
+                    map (fun b => (b, 1)) [70;85;78;67;32;102;102;102;102;102;102;102;102;102;102;102;102;102;102;102;48;32;102;32;48;32;102];  (* FUNC fffffffffffffff0 f 0 f *)
+                    map (fun b => (b, 1)) [102;102;102;102;102;102;102;102;102;102;102;102;102;102;102;48;32;49;48;32;55;32;49];                    (* fffffffffffffff0 10 7 1 *)
+                    map (fun b => (b, 1)) [102;102;102;102;102;102;102;102;102;102;102;102;102;102;102;56;32;57;32;55;32;49];                        (* fffffffffffffff8 9 7 1 *)
+                    map (fun b => (b, 1)) [102;102;102;102;102;102;102;102;102;102;102;102;102;102;102;56;32;48;32;55;32;49]]                       (* fffffffffffffff8 0 7 1 *)
+                   0 [7; 11] in
+  (match r with
+  | Ret (ROk p, _) =>
+      (finish_new_ranges p,
+       match finish p with
+       | Ret t => (map fst (t_win_fd t), map (fun e => map fst (sf_lines (snd e))) (t_funcs t))
+       | _ => ([], [])
+       end)
+  | _ => ([], ([], []))
+  end) = ([(18446744073709551600, 18446744073709551615); (18446744073709551600, 18446744073709551614);
+           (16, 31); (20, 31); (16, 19)],
+          ([(16, 19); (20, 31)], [[(18446744073709551600, 18446744073709551615)]])).
+Proof. vm_compute. reflexivity. Qed.
